@@ -9,6 +9,8 @@ logging.disable(logging.CRITICAL)
 
 from haiway import MISSING, State, is_missing, not_missing, when_missing
 from haiway.types.missing import Missing
+from typing import Any
+from collections.abc import Sequence
 
 
 class AlwaysEq:
@@ -17,6 +19,10 @@ class AlwaysEq:
 
     def __hash__(self):
         return 1
+
+
+class Wrap(State):
+    inner: Any = None
 
 
 class Holder(State):
@@ -47,6 +53,24 @@ def problems():
             same(f"copy inside {name}", get(copy.copy(box)))
             for p in (0, 2, 5):
                 same(f"pickle {p} inside {name}", get(pickle.loads(pickle.dumps(box, p))))
+        class Bare(State):             # MISSING held by attributes that have no class-level default to fall back on
+            value: int | Missing
+            inner: Holder | Missing
+            items: Sequence[int | Missing] = ()
+        bare = Bare(value=MISSING, inner=MISSING, items=[1, MISSING])
+        for label, make in (("copy", lambda: copy.copy(bare)), ("deepcopy", lambda: copy.deepcopy(bare)),
+                            ("deepcopy inside a list", lambda: copy.deepcopy([bare])[0]),
+                            ("deepcopy inside a state", lambda: copy.deepcopy(Wrap(inner=bare)).inner),
+                            ("updated()", lambda: bare.updated()), ("copy of a deepcopy", lambda: copy.copy(copy.deepcopy(bare)))):
+            try:
+                x = make()
+                same(f"{label} of a state holding MISSING without a default: .value", x.value)
+                same(f"{label} of a state holding MISSING without a default: .inner", x.inner)
+                same(f"{label} of a state holding MISSING without a default: .items[1]", x.items[1])
+                if x != bare or str(x) != str(bare) or vars(x).keys() != vars(bare).keys():
+                    out.append(f"{label} of a state holding MISSING differs from the original: {x} vs {bare}")
+            except Exception as e:  # noqa
+                out.append(f"{label} of a state holding MISSING (attribute without a default): {e!r}"[:220])
         h = Holder()
         for label, hh in (("copy of state", lambda: copy.copy(h)), ("deepcopy of state", lambda: copy.deepcopy(h)),
                           ("updated state", lambda: h.updated())):
